@@ -390,7 +390,7 @@ def stream_checks(sc: Scenario, rx, allow_alien=False):
                 break
         if not allow_alien:
             for f in r["frames"]:
-                if int(f.send_time) in sc.pubs and f.send_time == int(f.send_time):
+                if f.pid in sc.pubs:
                     continue
                 if f.msg_type in W.MANAGER_TYPES and f.src_mod == 0:
                     continue
